@@ -17,7 +17,6 @@ package main
 import (
 	"encoding/json"
 	"fmt"
-	"os"
 	"reflect"
 	"sort"
 	"strings"
@@ -125,10 +124,6 @@ func (v *V) nested() bool {
 	return false
 }
 
-// nestedModel: print cases for the model whose maps are lists of flattened entries
-// (Model/StreamOpsN.v); otherwise for the flat model, which cannot take nested maps
-var nestedModel = os.Getenv("VERIF_C04_N") != ""
-
 func coqKeyRest(path []int, mark bool) string {
 	if len(path) == 0 {
 		if mark {
@@ -143,27 +138,12 @@ func (v *V) coq() string {
 	if v.S != nil {
 		return lib.CoqApp("VS", lib.CoqStr(*v.S))
 	}
-	if nestedModel {
-		es := flatten(v.toGo2())
-		items := make([]string, len(es))
-		for i, e := range es {
-			k := lib.CoqPair(lib.CoqN(uint64(e.path[0])), coqKeyRest(e.path[1:], e.mark))
-			items[i] = lib.CoqPair(k, lib.CoqStr(e.val))
-		}
-		return lib.CoqApp("VM", lib.CoqList(items))
-	}
-	ks := make([]string, 0, len(v.M))
-	for k := range v.M {
-		ks = append(ks, k)
-	}
-	sort.Slice(ks, func(i, j int) bool { return keyNum(ks[i]) < keyNum(ks[j]) })
-	items := make([]string, len(ks))
-	for i, k := range ks {
-		s := "<nested>"
-		if v.M[k].S != nil {
-			s = *v.M[k].S
-		}
-		items[i] = lib.CoqPair(lib.CoqN(uint64(keyNum(k))), lib.CoqStr(s))
+	// a map is printed as the list of its flattened entries in the model's key order
+	es := flatten(v.toGo2())
+	items := make([]string, len(es))
+	for i, e := range es {
+		k := lib.CoqPair(lib.CoqN(uint64(e.path[0])), coqKeyRest(e.path[1:], e.mark))
+		items[i] = lib.CoqPair(k, lib.CoqStr(e.val))
 	}
 	return lib.CoqApp("VM", lib.CoqList(items))
 }
@@ -362,9 +342,6 @@ type engine struct{}
 
 func (engine) ID() string { return "C04" }
 func (engine) CoqHeader() string {
-	if nestedModel {
-		return "From Eino Require Import Base.Util Model.Paradigm Model.StreamOpsN Model.ParadigmProgN Model.ParadigmSpecN Corr.C04N.\n"
-	}
 	return "From Eino Require Import Base.Util Model.Paradigm Model.StreamOps Model.ParadigmProg Model.ParadigmSpec Corr.C04.\n"
 }
 func (engine) CoqCaseType() string { return "ccase" }
@@ -520,11 +497,6 @@ func (engine) Run(ci any) lib.Result {
 		// non-trivial: some node lacks the native the mode would call first, or streams are
 		// copied / merged / filtered on the way
 		res.Nontrivial = st.derived > 0 || st.pars > 0 || st.branches > 0 || st.keys > 0
-	}
-	if nested && !nestedModel {
-		// nested maps are outside the universe of the model (strings and flat maps): the case is
-		// judged by the direct oracle alone
-		res.CoqTerm = ""
 	}
 	res.Tags = tags
 	return res
